@@ -10,8 +10,21 @@ here for the characters of the entries are compared with Rust's char methods (`A
 What is checked against /repo here: every stem-like prefix of an entry must occur in dictionary.dict (an entry whose
 first word / first hyphen part no dictionary line starts with cannot come from that file), and every entry must
 contain a character that is not an ASCII letter (an all-letter ASCII word is one Word token by theorem
-C06_simple_word_alone_*).  Raises on any other shape."""
-import json, os, re, unicodedata
+C06_simple_word_alone_*).  Raises on any other shape.
+
+Phase 4 — the table is now ALSO derived from the sources: tools/tables/_c06dict.py rebuilds the curated dictionary
+from harper-core/dictionary.dict + harper-core/affixes.json (a port of parse_word_list / Matcher / expand_marked_word /
+WordMap::insert whose Rust shapes are re-checked verbatim).  Written beside the committed list:
+  dict_word_count, dict_digest     size and FNV-1a digest of the rebuilt word list — the correspondence case `D` requires
+                                   them to equal those of FstDictionary::curated().words_iter() (tie of the port);
+  dict_nonsimple_entries           every rebuilt entry that is NOT a simple word (letters, or letters ' letters — the
+                                   shapes theorem C06_simple_word_one_word proves to be one Word token).
+Theorem C06_f24_table_from_dictionary (vm_compute) then says: the entries of dict_nonsimple_entries the model lexer does
+not cut into exactly one Word token ARE the committed list f24_entries — so a change of dictionary.dict / affixes.json
+that adds or removes a multi-token entry breaks a PROOF OBLIGATION (not only the harness comparison).  The harness
+requires dict_nonsimple_entries to equal its own classification of words_iter (cases `M`, `NC`).  This module raises
+when a committed entry is not among the rebuilt non-simple entries."""
+import json, os, re, unicodedata, importlib.util
 
 HERE = os.path.dirname(os.path.abspath(__file__))
 LIST = os.path.join(HERE, "..", "..", "corpus", "C06", "multi_token_entries.json")
@@ -36,6 +49,28 @@ def _flags(c):
     # result is compared with the implementation by the harness (A cases)
     ling = alpha and not num and not ws and name.startswith("LATIN ")
     return (ws, num, alpha, ling)
+
+
+def _dictmod():
+    spec = importlib.util.spec_from_file_location("_c06dict", os.path.join(HERE, "_c06dict.py"))
+    mod = importlib.util.module_from_spec(spec)
+    spec.loader.exec_module(mod)
+    return mod
+
+
+def _lingual(c):
+    return _flags(c)[3]
+
+
+def is_simple(w):
+    """simple_word of C06WordsProofs.v: non-empty letters, or letters + one apostrophe (' or U+2019) + letters"""
+    if w and all(_lingual(c) for c in w):
+        return True
+    idx = [i for i, c in enumerate(w) if c in "'\u2019"]
+    if len(idx) != 1:
+        return False
+    a, b = w[:idx[0]], w[idx[0] + 1:]
+    return bool(a) and bool(b) and all(_lingual(c) for c in a + b)
 
 
 def _b(x):
@@ -64,7 +99,17 @@ def generate(repo):
             raise ValueError("f24: %r is all ASCII letters: it cannot be a multi-token entry" % e)
         if not any(s and e.startswith(s[: max(1, min(len(s), len(e)) - 3)]) for s in _near(stems, e)):
             raise ValueError("f24: %r: no line of dictionary.dict it could come from" % e)
-    alphabet = sorted(set(c for e in entries for c in e))
+    dm = _dictmod()
+    words, n_marked = dm.expand(repo)
+    if len(set(words)) != len(words):
+        raise ValueError("f24: the rebuilt dictionary lists a spelling twice")
+    nonsimple = [w for w in words if not is_simple(w)]
+    missing = [e for e in entries if e not in set(nonsimple)]
+    if missing:
+        raise ValueError("f24: committed multi-token entries that dictionary.dict + affixes.json do not produce "
+                         "(or that are simple words): %r" % missing[:10])
+    digest = dm.fnv1a64(words)
+    alphabet = sorted(set(c for e in entries for c in e) | set(c for e in nonsimple for c in e) | set("0123456789"))
     out = []
     out.append("(* Tables_f24.v — GENERATED by tools/tables/f24.py from corpus/C06/multi_token_entries.json (the curated")
     out.append("   entries that are not one Word token when written alone; the harness re-derives that set from the")
@@ -86,6 +131,17 @@ def generate(repo):
         arows.append("  (%d, (%s, %s, %s, %s))" % (ord(c), _b(ws), _b(num), _b(alpha), _b(ling)))
     out.append("  [\n  " + ";\n  ".join(arows) + "\n  ].")
     out.append("Definition f24_entry_count : nat := %d." % len(entries))
+    out.append("")
+    out.append("(* ---- derived from harper-core/dictionary.dict + harper-core/affixes.json by tools/tables/_c06dict.py ---- *)")
+    out.append("(* %d marked words expand to %d canonical spellings (Dictionary::words_iter); FNV-1a 64 of the sorted list," % (n_marked, len(words)))
+    out.append("   each word followed by a newline, UTF-8 *)")
+    out.append("Definition dict_word_count : N := %d." % len(words))
+    out.append("Definition dict_digest : N := %d." % digest)
+    out.append("(* the %d spellings that are not simple words (letters, or letters ' letters) *)" % len(nonsimple))
+    out.append("Definition dict_nonsimple_entries : list (list N) :=")
+    rows = ["  [" + "; ".join(str(ord(c)) for c in e) + "]" for e in nonsimple]
+    out.append("  [\n  " + ";\n  ".join(rows) + "\n  ].")
+    out.append("Definition dict_nonsimple_count : nat := %d." % len(nonsimple))
     return "\n".join(out) + "\n"
 
 
